@@ -76,17 +76,51 @@ def run(cx):
     with cx.ob("C12.3", "R-EDGE", "callee side: `stopped` of the own send stream races the service future; its arm returns Err without writing a response") as ob:
         co = cx.coroutine(f"{RH}::BiStreamRequestHandler::do_handle")
         o = Origins(co)
-        one = co.calls_to("tower::util::ServiceExt::oneshot")
+        # the service future: whatever is built from self.service and the decoded request (oneshot, or call after ready)
+        SVC = ("tower::util::ServiceExt::oneshot", "tower_service::Service::call")
+        one = [c for c in co.calls() if name_matches(c.fn, SVC) and not co.is_cleanup(c.bb) and mentions_field(o.of_operand(c.args[0]), "service") and mentions_upvar(o.of_operand(c.args[0]), "self")]
         st = [c for c in co.calls_to("quinn::send_stream::SendStream::stopped")]
-        ob.floor(one, 1, "oneshot", exact=True)
+        ob.floor(one, 1, "service future (oneshot / call on self.service)", exact=True)
         ob.floor(st, 2, "stopped() sites in do_handle", exact=True)
-        race = [c for c in st if co.dominates(one[0].bb, c.bb) and not any(co.dominates(w.bb, c.bb) for w in co.calls_to(f"{WIRE}::write_response"))]
-        ob.floor(race, 1, "stopped() created after the service future and before the response", exact=True)
+        race = [c for c in st if not any(co.dominates(w.bb, c.bb) for w in co.calls_to(f"{WIRE}::write_response"))]
+        ob.floor(race, 1, "stopped() created before the response", exact=True)
+        # every suspension point of the request task is one where abandonment is observed: IO on the request's own
+        # stream (fails on reset/stop) or the select! that polls `stopped`. Anything else (service readiness, sleeps,
+        # locks, channels) would be an unwatched wait during which the caller can walk away unnoticed.
+        WATCHED = (f"{WIRE}::read_request", f"{WIRE}::write_response", "quinn::send_stream::SendStream::stopped")
+        n_y = 0
+        for yb, bl in enumerate(co.blocks):
+            if bl.get("cleanup") or bl["t"]["k"] != "yield":
+                continue
+            n_y += 1
+            seen_, fr, found = set(), [yb], None
+            for _ in range(8):
+                nx = []
+                for x in fr:
+                    for y in co.succ(x):
+                        if y in seen_:
+                            continue
+                        seen_.add(y)
+                        cc = co.call_at(y)
+                        if cc is not None and name_matches(cc.fn, "future::future::Future::poll"):
+                            found = cc
+                            break
+                        nx.append(y)
+                    if found:
+                        break
+                if found or not nx:
+                    break
+                fr = nx
+            tgt = await_target(found) if found is not None else None
+            is_select = found is not None and (found.exp or "").endswith("tokio::select!")
+            ob.require(found is not None and (is_select or (tgt is not None and name_matches(tgt, WATCHED))), f"race/unwatched-wait/{tgt or 'unknown'}",
+                       f"do_handle suspends on `{tgt or (found.res if found else '?')}` at {co.loc(yb)} outside the select! that watches `stopped`: an RPC abandoned during this wait is not cancelled", co.path, co.loc(yb))
+        ob.floor(n_y, 4, "suspension points of do_handle")
         t = arg_origin(race[0], 0, o)
         ob.require(mentions_field(t, "send_stream") and mentions_upvar(t, "self"), "race/own-stream", f"stopped() on {show(t)}", co.path)
         # both futures are in the tuple captured by the select! poll_fn closure
         futs = [s for bl in co.blocks if not bl.get("cleanup") for s in bl["s"] if s["k"] == "assign" and s["rv"]["k"] == "agg" and s["rv"]["ak"] == "tuple"
-                and any(term_has_call(o.of_operand(x), "ServiceExt::oneshot") for x in s["rv"]["ops"])]
+                and any(term_has_call(o.of_operand(x), SVC) for x in s["rv"]["ops"])]
         ob.floor(futs, 1, "select! futures tuple")
         idx_stop = None
         for f_ in futs:
